@@ -217,17 +217,22 @@ def _outroot():
     return VERIF if os.path.realpath(REPO) == "/repo" else os.path.join(WORK, "other-tree")
 
 
+def _evdir(prop):
+    # extra families (ids X..: components outside the listed properties) keep their evidence apart
+    return "evidence-extra" if prop.startswith("X") else "evidence"
+
+
 def evidence_path(prop):
-    return os.path.join(_outroot(), "evidence", prop + ".json")
+    return os.path.join(_outroot(), _evdir(prop), prop + ".json")
 
 
 def write_evidence(prop, tier, seed, level, coverage, assumptions, wall, violations, extra=None):
-    os.makedirs(os.path.join(_outroot(), "evidence"), exist_ok=True)
+    os.makedirs(os.path.join(_outroot(), _evdir(prop)), exist_ok=True)
     ev = dict(property_id=prop, tier=tier, seed=int(seed), level=level, coverage=coverage,
               assumptions=assumptions, wall_s=round(wall, 2), violations=violations)
     if extra:
         ev.update(extra)
-    p = os.path.join(_outroot(), "evidence", prop + ".json")
+    p = evidence_path(prop)
     tmp = p + ".tmp"
     json.dump(ev, open(tmp, "w"), indent=1, sort_keys=True)
     os.replace(tmp, p)
